@@ -348,7 +348,10 @@ class Facts:
         _symex._PROMOTED_CACHE.clear()
         _symex.BODIES.clear()
         _symex.CLOSURE_FIELDS.clear()
+        _symex.NO_INLINE.clear()
         _symex.BODIES.update(self.bodies)
+        _symex.ADTS.clear()
+        _symex.ADTS.update(self.adts)
         for k, b in self.bodies.items():
             if b.kind == 'Promoted':
                 _symex.PROMOTED[k] = b
